@@ -28,6 +28,7 @@ type BroadcastMessage struct {
 	ConnId      string   `json:"ConnId"`
 	Database    int      `json:"Database"` // logical database the forwarding connection had selected
 	Protocol    int      `json:"Protocol"`
+	ExpiredAt   int64    `json:"ExpiredAt"` // DeleteKey: the expiry time the key is deleted for (0: unconditional)
 }
 
 // Invalidates Implements Broadcast interface
